@@ -10,19 +10,22 @@ import (
 	"verifmon/internal/core"
 )
 
-var c19Zones = []string{"UTC", "America/New_York", "Europe/London", "Asia/Kolkata", "Australia/Lord_Howe", "America/Sao_Paulo", "Africa/Cairo", "Pacific/Apia", "Asia/Tehran"}
+var c19Zones = []string{"UTC", "America/New_York", "Europe/London", "Asia/Kolkata", "Australia/Lord_Howe", "America/Sao_Paulo", "Africa/Cairo", "Pacific/Apia", "Asia/Tehran",
+	// UTC+14 and UTC-11: at every moment of the day the local calendar date of at least one of them differs from
+	// the UTC date (now/toDay are the only clauses that depend on the wall clock of the run)
+	"Pacific/Kiritimati", "Pacific/Pago_Pago"}
 
 var c19 = core.Register(&core.Prop{
 	ID:    "C19",
 	Title: "Date builtins agree with the proleptic Gregorian calendar and preserve instants",
-	Rule: "one child process per local time zone (TZ set before start) over 9 zones with and without daylight saving; (y, m, d) with years 1-9999 and months/days from -40 to 60; shift triples; instants around every DST transition of the zone between 1900 and 2100 and random ones, in several time zones; " +
+	Rule: "one child process per local time zone (TZ set before start) over 11 zones with and without daylight saving; (y, m, d) with years 1-9999 and months/days from -40 to 60; shift triples; instants around every DST transition of the zone between 1900 and 2100 and random ones, in several time zones; " +
 		"civil fields against an independent days-from-civil computation, instants against local midnight under the zone's offsets, layouts against a reference renderer; non-trivial = month or day outside its range, or an instant within 48 h of a transition, or a non-UTC zone; distinct by (zone, call, arguments)",
 	Assumptions: []string{
 		"zone offsets come from Go's time package (trusted base); everything else (carry rule, civil fields, weekday, milliseconds, formatting) is computed independently",
 		"'local midnight' on a day where midnight is skipped or repeated means: the instant read with one of the zone's offsets in effect within +-48 h gives that civil midnight; when a unique valid reading exists it is required",
 		"now/toDay are checked against the wall-clock bracket of the call (inherent to the clause); a 2 ms slack absorbs clock granularity",
 	},
-	Shards: func(tier string) int { return pickTier(tier, 9, 18) },
+	Shards: func(tier string) int { return pickTier(tier, 11, 22) },
 	Env: func(shard int, tier string) []string {
 		return []string{"TZ=" + c19Zones[shard%len(c19Zones)]}
 	},
